@@ -238,6 +238,90 @@ fn contention(out: &mut Out, r: &mut Rng, th: bool) {
     }
 }
 
+/// The provided helpers of the `Checker` trait (src/checker.rs) after a single-threaded run: per property
+/// `discovery_classification`, `assert_any_discovery`, `assert_no_discovery`, `assert_discovery` with the discovery's
+/// own action list and with a generated action list (a mutation of the own list, the actions of a random walk from an
+/// initial state, or arbitrary indices), and `assert_properties`. Compared with the model (`helpers` command).
+fn helpers_case(out: &mut Out, g: &GraphModel, strat: &str, cfg: &Cfg, r: &mut Rng) {
+    let g2 = g.clone();
+    let st = strat.to_string();
+    let cfg2 = cfg.clone();
+    let np = g.props.len();
+    // the discoveries first (to derive action lists from them), inside one catch_unwind with everything else
+    let given_seed = r.next();
+    let res = catch_unwind(AssertUnwindSafe(move || {
+        let mut rr = Rng::new(given_seed);
+        let mut b = g2.clone().checker().threads(1).finish_when(cfg2.has_disc());
+        if let Some(d) = cfg2.max_depth { b = b.target_max_depth(d); }
+        if let Some(t) = cfg2.target { b = b.target_state_count(t); }
+        fn rows<C: Checker<GraphModel>>(c: &C, np: usize, rr: &mut Rng) -> (Vec<String>, Vec<Vec<u16>>, bool) {
+            let g = c.model().clone();
+            let mut rows = vec![];
+            let mut givens = vec![];
+            for i in 0..np {
+                let name = NAMES[i];
+                let cls = match catch_unwind(AssertUnwindSafe(|| format!("{}", c.discovery_classification(name)))) {
+                    Ok(t) => t, Err(_) => "panic".into(),
+                };
+                let any = catch_unwind(AssertUnwindSafe(|| { c.assert_any_discovery(name); })).is_ok();
+                let no = catch_unwind(AssertUnwindSafe(|| c.assert_no_discovery(name))).is_ok();
+                let own_acts: Option<Vec<u16>> = c.discovery(name).map(|p| p.into_actions());
+                let own = match &own_acts {
+                    Some(a) => { let a = a.clone(); if catch_unwind(AssertUnwindSafe(|| c.assert_discovery(name, a))).is_ok() { "ok" } else { "panic" } }
+                    None => "none",
+                };
+                // a generated action list
+                let given: Vec<u16> = match (rr.below(4), &own_acts) {
+                    (0, Some(a)) if !a.is_empty() => { let mut a = a.clone(); a.pop(); a }
+                    (1, Some(a)) => { let mut a = a.clone(); a.push(rr.below(3) as u16); a }
+                    (2, _) | (0, _) | (1, _) => {
+                        // the actions of a random walk from an initial state (ignored actions may be picked: then None)
+                        let mut acts = vec![];
+                        if !g.init.is_empty() {
+                            let mut s = g.init[rr.below(g.init.len())];
+                            for _ in 0..rr.below(5) {
+                                let row = &g.adj[s as usize];
+                                if row.is_empty() { break; }
+                                let a = rr.below(row.len());
+                                acts.push(a as u16);
+                                match row[a] { Some(t) => s = t, None => break }
+                            }
+                        }
+                        acts
+                    }
+                    _ => (0..rr.below(4)).map(|_| rr.below(3) as u16).collect(),
+                };
+                let gv = { let a = given.clone(); catch_unwind(AssertUnwindSafe(|| c.assert_discovery(name, a))).is_ok() };
+                let b = |x: bool| if x { "ok" } else { "panic" };
+                rows.push(format!("({} {} {} {} {} {})", i, cls, b(any), b(no), own, b(gv)));
+                givens.push(given);
+            }
+            let ap = catch_unwind(AssertUnwindSafe(|| c.assert_properties())).is_ok();
+            (rows, givens, ap)
+        }
+        match st.as_str() {
+            "bfs" => { let c = b.spawn_bfs().join(); rows(&c, np, &mut rr) }
+            "dfs" => { let c = b.spawn_dfs().join(); rows(&c, np, &mut rr) }
+            _ => { let c = b.spawn_on_demand(); c.run_to_completion(); let c = c.join(); rows(&c, np, &mut rr) }
+        }
+    }));
+    if let Ok((rows, givens, ap)) = res {
+        let gsx = format!("({})", givens.iter().map(|a| format!("({})", a.iter().map(|x| x.to_string()).collect::<Vec<_>>().join(" "))).collect::<Vec<_>>().join(" "));
+        out.m(&format!("helpers {} {} {} {} {}", strat, g.graph_sx(), g.props_sx(), cfg.sx(), gsx),
+              &format!("({}) (assert {})", rows.join(" "), if ap { "ok" } else { "panic" }));
+        out.stat("helper-cases");
+        for row in &rows {
+            if row.ends_with("ok ok)") { out.stat("assert_discovery-own-accepted-given-accepted"); }
+            else if row.ends_with("ok panic)") { out.stat("assert_discovery-own-accepted-given-rejected"); }
+            else if row.ends_with("panic ok)") { out.stat("assert_discovery-own-rejected-given-accepted"); }
+            else if row.ends_with("panic panic)") { out.stat("assert_discovery-own-rejected-given-rejected"); }
+            else { out.stat("assert_discovery-no-discovery"); }
+        }
+    } else {
+        out.stat("helper-case-panicked");
+    }
+}
+
 fn main() {
     quiet_panics();
     let mut out = Out::new();
@@ -279,6 +363,7 @@ fn main() {
 
     // ---- 2. seeded random graphs with 1..5 mixed properties ------------------------------------
     let n_rand = if th { 40_000 } else { 2_500 };
+    let plain_cfg = Cfg::plain();
     for c in 0..n_rand {
         let shape = match r.below(10) { 0..=5 => Shape::Any, 6..=7 => Shape::Forest, _ => Shape::Dag };
         let np = r.range(1, 5);
@@ -304,6 +389,9 @@ fn main() {
         let strat = strategies[r.below(3)];
         case(&mut out, &g, strat, &cfg, &prop, true);
         out.stat("with-run-controls");
+        if prop == "c02" || prop == "c03" {
+            helpers_case(&mut out, &g, strategies[c % 3], if c % 2 == 0 { &cfg } else { &plain_cfg }, &mut r);
+        }
         // simulation with a scripted chooser (all initial states inside the boundary so that every trace counts
         // at least one state and the target state count ends the run)
         if prop == "c03" || prop == "c11" || prop == "c12" {
